@@ -71,6 +71,7 @@ func GenScheduled(t *rapid.T) *Case {
 func GenFree(t *rapid.T) *Case {
 	c := genProgram(t, 4, 4, false, false)
 	c.Free = true
+	c.Rounds = 40
 	c.Procs = rapid.SampledFrom([]int{1, 2, 4, 16}).Draw(t, "procs")
 	c.Noise = rapid.SliceOfN(rapid.IntRange(0, 3), 0, 6).Draw(t, "noise")
 	return c
